@@ -54,7 +54,7 @@ def cases(tier, seed):
                         for sk in ('int', 't0d', 't1e'):
                             yield dict(base, form='s/y', seed=0, sk=sk)
                     if rz == 1:
-                        for sk in ('int', 'float', 't0d', 'third'):
+                        for sk in ('int', 'float', 't0d', 'third', 't0d_f32', 't0d_i64', 't1e_f32', 'inexact'):
                             yield dict(base, form='x/s', seed=0, sk=sk)
                     for eps in (1e-6, 1e-10):
                         for prec in (None, 'c'):
@@ -92,7 +92,9 @@ def run_case(c):
     np.random.seed(c['seed'])
     site = 'divide.' + form.replace('/', '_over_')
     if form == 'x/s':
-        s, sv = {'int': (2, 2.0), 'float': (0.5, 0.5), 't0d': (torch.tensor(4.0, dtype=torch.float64), 4.0), 'third': (3.0, 3.0)}[c['sk']]
+        s, sv = {'int': (2, 2.0), 'float': (0.5, 0.5), 't0d': (torch.tensor(4.0, dtype=torch.float64), 4.0), 'third': (3.0, 3.0),
+                 't0d_f32': (torch.tensor(3.0), 3.0), 't0d_i64': (torch.tensor(3), 3.0), 't1e_f32': (torch.tensor([1.7]), float(torch.tensor(1.7))),
+                 'inexact': (0.3, 0.3)}[c['sk']]
         res, e = call(lambda: x / s)
         want = xd / sv
         if e is not None:
@@ -102,7 +104,7 @@ def run_case(c):
             viol.append(V(site + '.shape', str(getattr(res, 'N', type(res)))))
         else:
             got = ref.contract(res.cores)
-            tol = 4 * u * float(ref.absbound(cx)) / abs(sv) * (1 if c['sk'] == 'third' else 0)
+            tol = 4 * u * float(ref.absbound(cx)) / abs(sv) * (0 if c['sk'] in ('int', 'float', 't0d') else 1)
             if not ref.close(got, want, tol):
                 viol.append(V(site + '.value', 'max diff %.3e tol %.3e' % (ref.maxdiff(got, want), tol)))
         return Outcome(key, nt, 'x/s', violations=viol)
